@@ -23,18 +23,18 @@ var harnessBudget = 6 * time.Minute
 var verbose, noSolve bool
 
 type OblResult struct {
-	Kind    string `json:"kind"`
-	Label   string `json:"label"`
-	Pos     string `json:"pos,omitempty"`
-	Fn      string `json:"fn,omitempty"`
-	Status  string `json:"status"` // unsat | sat | unknown | timeout | error | trivial
-	Solver  string `json:"solver,omitempty"`
-	Ms      int64  `json:"ms"`
-	Nodes   int    `json:"nodes"`
-	Model   *Model `json:"model,omitempty"`
+	Kind    string            `json:"kind"`
+	Label   string            `json:"label"`
+	Pos     string            `json:"pos,omitempty"`
+	Fn      string            `json:"fn,omitempty"`
+	Status  string            `json:"status"` // unsat | sat | unknown | timeout | error | trivial
+	Solver  string            `json:"solver,omitempty"`
+	Ms      int64             `json:"ms"`
+	Nodes   int               `json:"nodes"`
+	Model   *Model            `json:"model,omitempty"`
 	Env     map[string]uint64 `json:"-"`
-	Second  string `json:"second_solver,omitempty"`
-	Status2 string `json:"second_status,omitempty"`
+	Second  string            `json:"second_solver,omitempty"`
+	Status2 string            `json:"second_status,omitempty"`
 }
 
 type Model struct {
@@ -155,13 +155,13 @@ func typeCheck(dir string, patterns []string, env []string) map[string]string {
 }
 
 type RunOpts struct {
-	Bounds     Bounds
-	Filter     *regexp.Regexp
-	Workers    int
-	Solvers    []string
-	CrossCheck bool
-	DumpDir    string
-	Opt        map[string]string // per-nondet option overrides
+	Bounds      Bounds
+	Filter      *regexp.Regexp
+	Workers     int
+	Solvers     []string
+	CrossCheck  bool
+	DumpDir     string
+	Opt         map[string]string // per-nondet option overrides
 	AbstractMul bool
 	Native      bool
 	Conc        bool
